@@ -66,6 +66,9 @@ func locsOf(r root) []pokeLoc {
 // ---- SDK v2 ----------------------------------------------------------------
 
 func locsMapV2(path string, m map[string]types.AttributeValue, out *[]pokeLoc) {
+	if m == nil {
+		return
+	}
 	keys := sortedKeys(m)
 	for _, k := range keys {
 		k := k
@@ -132,6 +135,9 @@ func locsV2(path string, a types.AttributeValue, out *[]pokeLoc) {
 // ---- SDK v1 ----------------------------------------------------------------
 
 func locsMapV1(path string, m map[string]*dynamodb.AttributeValue, out *[]pokeLoc) {
+	if m == nil {
+		return
+	}
 	keys := sortedKeys(m)
 	for _, k := range keys {
 		k := k
